@@ -99,6 +99,16 @@ def main():
         if "--round2" in sys.argv and name.split("-")[1] not in ("3", "4"):
             continue
         if os.path.exists(os.path.join(ROOT, "seeded", name, "patch.diff")):
+            try:
+                meta = json.load(open(os.path.join(ROOT, "seeded", name,
+                                                   "meta.json")))
+            except Exception:  # noqa: BLE001
+                meta = {}
+            if meta.get("neutralised_by"):
+                # a later fix: commit made the mutant harmless (its own
+                # demonstration passes on the current tree)
+                print((name, "NEUTRALISED by " + meta["neutralised_by"]))
+                continue
             names.append(name)
     rows = []
     pool = multiprocessing.pool.ThreadPool(jobs)
